@@ -16,7 +16,8 @@ from pbv import core, impl, tables, units as UA
 
 STD_CD = [0.2, 0.4, 0.3, 0.25, 0.22, 0.21, 0.2]
 POINT_LISTS = ("{ <<<<30, 2>>>>, <<<<20, 0>>, <<30, 4>>>>, <<<<30, 4>>, <<20, 0>>>>, <<<<50, 3>>, <<20, 1>>, <<30, 7>>>>, "
-               "<<<<30, 7>>, <<50, 3>>, <<20, 1>>>>, <<<<20, 2>>, <<50, 6>>>>, <<<<25, 8>>, <<45, 5>>>> }")
+               "<<<<30, 7>>, <<50, 3>>, <<20, 1>>>>, <<<<20, 2>>, <<50, 6>>>>, <<<<25, 8>>, <<45, 5>>>>, "
+               "<<<<20, 2>>, <<50, 4>>, <<30, 8>>>>, <<<<30, 0>>, <<20, 4>>, <<50, 6>>>> }")   # the last two: end points ON table nodes
 SOUND = None
 
 
@@ -191,7 +192,7 @@ def run(chk: core.Check, replay_path=None, **_):
     chk.sample({"history": behs[len(behs) // 2]})
     chk.require_strata(["build_from_standard", "build_from_other-model", "table_as_dicts", "table_as_datapoints", "single_point",
                         "single_equals_plain", "shipped_heap"])
-    chk.rule.append("every build history of %d builds over 7 point lists (1-3 points, several orders, on and between nodes) x source "
+    chk.rule.append("every build history of %d builds over 9 point lists (1-3 points, several orders, on and between nodes) x source "
                     "(standard table as dicts / caller-owned data points / another model's table by reference), points by Mach or by "
                     "velocity in rotating units, with and without weight+diameter; non-trivial = a build with >= 2 BC points"
                     % (4 if thorough else 3))
